@@ -244,6 +244,12 @@ func c01Writers() []c01Writer {
 		{"deferred.ForPath", func(_ lab.Cfg, b []refcar.Block) bool { return len(b) > 0 }, func(dir string, roots []cid.Cid, cfg lab.Cfg, blks []refcar.Block) ([]byte, error) {
 			p := filepath.Join(dir, "deferred.car")
 			os.Remove(p)
+			if len(blks)%2 == 0 {
+				// the path holds an earlier, longer output (the same path written again): it is replaced, not overlaid
+				if err := os.WriteFile(p, bytes.Repeat([]byte{0x24, 0x01, 0x55, 0x12, 0x20, 0xEE}, 40<<10), 0o644); err != nil {
+					panic(err)
+				}
+			}
 			w := deferred.NewDeferredCarWriterForPath(p, roots, cfg.Opts()...)
 			if err := putAll(w, blks); err != nil {
 				return nil, err
